@@ -393,6 +393,78 @@ Definition check_inv_acc_scaled (c : list Q) (scale kappa thmax : Q) (cells : li
   Qltb 0 scale && Qltb 0 kappa &&
   check_inv_acc (qdiv_list c scale) (Qinv kappa) (Qmult kappa kappa) thmax cells tol.
 
+(* ---- C16, high order (small eps).  On a cell |x - x0| <= r with |tau| r <= 1:
+     p(x0 + d) = sum_k a_k d^k                                  (Taylor shift, interval coefficients)
+     s cos(tau (x0 + d)) = s (A C(tau d) - B S(tau d)) + rem,   A = cos(tau x0), B = sin(tau x0),
+   C, S the Taylor sums through order K - 1 (K = 4n + 4), |rem| <= s (|tau r|^K / K! + |tau r|^(K+1) / (K+1)!).
+   The certificate is  sum_k |a_k - s t_k| r^k + rem <= eps  on every cell of a cover of [-1, 1]. *)
+Section ShiftAt.
+  Context {D : Type} (O : Ops D).
+  Fixpoint pshift_at (p : list D) (x0 : D) : list D :=
+    match p with
+    | [] => []
+    | a :: p' => let q := pshift_at p' x0 in ladd O [a] (ladd O (scale O x0 q) (pshift O q))
+    end.
+End ShiftAt.
+(* tau^k / k!  for k = k0, k0+1, ... (n terms), exactly *)
+Fixpoint tfl (tau : Q) (n k : nat) (f : Q) : list Q :=
+  match n with
+  | 0%nat => []
+  | S n' => f :: tfl tau n' (S k) (Qmult f (Qmult tau (1 # Pos.of_nat (S k))))
+  end.
+(* sign pattern of the k-th Taylor coefficient of cos(a + u) = A cos u - B sin u (resp. sin(a + u) = B cos u + A sin u) *)
+Definition gam (usesin : bool) (A B : I) (k : nat) : I :=
+  let base := if Nat.even k then (if usesin then B else A) else (if usesin then A else ineg B) in
+  if Nat.even (Nat.div2 k) then base else ineg base.
+Fixpoint tcoefs (usesin : bool) (A B : I) (fl : list Q) (k : nat) : list I :=
+  match fl with
+  | [] => []
+  | f :: fl' => imul (gam usesin A B k) (iofQ f) :: tcoefs usesin A B fl' (S k)
+  end.
+Fixpoint abs_horner (l : list I) (r : I) : I :=
+  match l with
+  | [] => izero
+  | d :: l' => iadd (mkI 0 (iabs_ub d)) (imul r (abs_horner l' r))
+  end.
+Fixpoint qpow (q : Q) (n : nat) : Q := match n with 0%nat => 1 | S n' => Qmult q (qpow q n') end.
+Definition cell_ok_hi (usesin : bool) (p : list Q) (s tau eps : Q) (K : nat) (cell : Q * Q) : bool :=
+  let x0 := fst cell in let r := snd cell in
+  let fl := tfl tau (K + 2) 0 1 in
+  let cs := cos_sin_encl (Qmult tau x0) in
+  let a := pshift_at OpsI (map iofQ p) (iofQ x0) in
+  let t := tcoefs usesin (fst cs) (snd cs) (firstn K fl) 0 in
+  let d := ladd OpsI a (lneg OpsI (scale OpsI (iofQ s) t)) in
+  let rem := Qmult s (qadd (Qmult (Qabs (nth K fl 0%Q)) (qpow r K)) (Qmult (Qabs (nth (S K) fl 0%Q)) (qpow r (S K)))) in
+  Qleb 0 r && Qleb (Qmult (Qabs tau) r) 1 &&
+  scaled_le_q (hi (abs_horner d (iofQ r))) (qadd eps (Qopp rem)).
+(* cells (x0, r) in x-space covering [-1, 1]: cover_upto cells (-1) 1 *)
+(* |p(x) - s cos(tau x)| <= eps (resp. sin) for every x in [-1,1]; p in the monomial basis; K = 4n+4 *)
+Definition check_trig_acc_hi (usesin : bool) (p : list Q) (s tau : Q) (cells : list (Q * Q)) (n : nat) (eps : Q) : bool :=
+  Qleb 0 s && cover_upto cells (-1) 1 && forallb (cell_ok_hi usesin p s tau eps (4 * n + 4)) cells.
+(* Chebyshev-basis input through the exact cheb2poly *)
+Definition check_trig_acc_hi_cheb (usesin : bool) (c : list Q) (s tau : Q) (cells : list (Q * Q)) (n : nat) (eps : Q) : bool :=
+  check_trig_acc_hi usesin (c2p_q false c) s tau cells n eps.
+
+(* ---- C16, 1/x, high order.  On a cell |x - x0| <= r < x0:
+     1/(x0 + d) = sum_{k<K} (-1)^k d^k / x0^(k+1) + (-d/x0)^K / (x0 + d),   |remainder| <= (r/x0)^K / (x0 - r). *)
+Fixpoint invcoefs (n : nat) (g ninv : Q) : list Q :=        (* g = (-1)^k / x0^(k+1), ninv = -1/x0 *)
+  match n with 0%nat => [] | S n' => g :: invcoefs n' (Qmult g ninv) ninv end.
+Definition cell_ok_inv_hi (p : list Q) (tol : Q) (K : nat) (cell : Q * Q) : bool :=
+  let x0 := fst cell in let r := snd cell in
+  let xi := Qinv x0 in
+  let a := pshift_at OpsI (map iofQ p) (iofQ x0) in
+  let t := map iofQ (invcoefs K xi (Qopp xi)) in
+  let d := ladd OpsI a (lneg OpsI t) in
+  let rem := Qmult (qpow (Qmult r xi) K) (Qinv (qadd x0 (Qopp r))) in
+  Qleb 0 r && Qltb r x0 &&
+  scaled_le_q (hi (abs_horner d (iofQ r))) (qadd tol (Qopp rem)).
+(* |p(x)/scale - 1/x| <= tol for every x in [1/kappa, 1]; p in the monomial basis *)
+Definition check_inv_acc_hi (p : list Q) (scale kappa : Q) (cells : list (Q * Q)) (K : nat) (tol : Q) : bool :=
+  Qltb 0 scale && Qltb 0 kappa &&
+  cover_upto cells (Qinv kappa) 1 && forallb (cell_ok_inv_hi (qdiv_list p scale) tol K) cells.
+Definition check_inv_acc_hi_cheb (c : list Q) (scale kappa : Q) (cells : list (Q * Q)) (K : nat) (tol : Q) : bool :=
+  check_inv_acc_hi (c2p_q false c) scale kappa cells K tol.
+
 (* ---- C09: the sup norm of a real-coefficient Laurent polynomial on the unit circle.
    |f(w)|^2 = (f * ~f)(w) = sum_m s_m cos(2 m t); the series s is supplied and verified by an exact
    Laurent-polynomial comparison, then bounded by the sup certificate. *)
